@@ -676,6 +676,76 @@ func ruleNIL1(w *World) []Ob {
 		}
 	}
 	l.list = keep
+	// errors handed to a stage's error channel are non-nil: the collector takes the first value it reads from an
+	// error channel as that stage's verdict, so a nil sent there reads as "this stage succeeded"
+	l.cfg = "D"
+	nc := newNilCtx(d)
+	isErrSender := func(f *ssa.Function) (int, bool) {
+		// a module helper that sends its error parameter on its chan<- error parameter
+		if f == nil || !d.InModule(f) || f.Blocks == nil {
+			return 0, false
+		}
+		for i, prm := range f.Params {
+			if !isErrorType(prm.Type()) {
+				continue
+			}
+			sends := false
+			allInstrs(f, func(in ssa.Instruction) {
+				switch x := in.(type) {
+				case *ssa.Send:
+					if sameVar(x.X, prm) {
+						sends = true
+					}
+				case *ssa.Select:
+					for _, st := range x.States {
+						if st.Dir == types.SendOnly && sameVar(st.Send, prm) {
+							sends = true
+						}
+					}
+				}
+			})
+			if sends {
+				return i, true
+			}
+		}
+		return 0, false
+	}
+	for _, fn := range libFuncs(d) {
+		fn := fn
+		num := numbered{}
+		if _, self := isErrSender(fn); self {
+			continue // judged at its call sites
+		}
+		allInstrs(fn, func(in ssa.Instruction) {
+			var v ssa.Value
+			what := ""
+			switch x := in.(type) {
+			case *ssa.Call:
+				if i, ok := isErrSender(x.Common().StaticCallee()); ok && i < len(x.Common().Args) {
+					v, what = x.Common().Args[i], "error handed to "+fname(x.Common().StaticCallee())
+				}
+			case *ssa.Send:
+				if isErrorType(x.X.Type()) {
+					v, what = x.X, "error sent on "+describeValue(x.Chan)
+				}
+			case *ssa.Select:
+				for _, st := range x.States {
+					if st.Dir == types.SendOnly && isErrorType(st.Send.Type()) {
+						v, what = st.Send, "error offered on "+describeValue(st.Chan)
+					}
+				}
+			}
+			if v == nil {
+				return
+			}
+			construct := num.name(what)
+			if nc.nonNil(v, in, 0) {
+				l.ok(d.FuncID(fn), construct, d.InstrPos(in), "proven non-nil where it is handed over", true, "handover-err")
+			} else {
+				l.bad(d.FuncID(fn), construct, d.InstrPos(in), "the value may be nil here: the collector reads the first value of a stage's error channel as that stage's result, so a nil reads as success and a real error of another root is never looked at", "handover-err")
+			}
+		})
+	}
 	return l.list
 }
 
@@ -737,7 +807,7 @@ func ruleNIL3(w *World) []Ob {
 				}
 			case *ssa.Call:
 				com := x.Common()
-				if !com.IsInvoke() || com.Method.Name() != "walkIterProgrammably" {
+				if !com.IsInvoke() || methodName(com.Method) != "walkIterProgrammably" {
 					return
 				}
 				nIter++
